@@ -367,7 +367,7 @@ CL_SPELLINGS = (
     ("absent", [], 3),
 )
 CL_KINDS = ("request", "response", "push_response")
-CL_FRAMINGS = ("one", "two", "zero_first", "zero_mid", "zero_last", "trailers", "bytes3")
+CL_FRAMINGS = ("one", "two", "zero_first", "zero_mid", "zero_last", "trailers", "bytes3", "truncated", "truncated_second")
 CL_DELIVERIES = ("whole", "frames_fin_last", "frames_lone_fin", "bytewise_lone_fin",
                  "bytewise_fin_last")
 
@@ -381,7 +381,7 @@ def cl_body_sizes(nominal):
     return sorted(s)
 
 
-def cl_frames(body, framing):
+def cl_frames(body, framing, announce=None):
     """-> list of frame byte strings following the HEADERS frame, or None if n/a."""
     n = len(body)
     if framing == "one":
@@ -406,6 +406,14 @@ def cl_frames(body, framing):
         if n < 3:
             return None
         return [R.data_frame(body[i : i + 1]) for i in range(n)]
+    if framing in ("truncated", "truncated_second"):
+        # the last DATA frame ANNOUNCES more payload than arrives before the FIN (announced lengths add up to
+        # `announce`, the delivered body is shorter): what counts is what was delivered
+        if announce is None or announce <= n or (framing == "truncated_second" and n < 2):
+            return None
+        if framing == "truncated":
+            return [R.frame(R.DATA, body, length=announce)]
+        return [R.data_frame(body[:1]), R.frame(R.DATA, body[1:], length=announce - 1)]
     raise ValueError(framing)
 
 
@@ -414,7 +422,7 @@ def gen_cl_cases(kind):
         for size in cl_body_sizes(nominal):
             for framing in CL_FRAMINGS:
                 body = bytes((0x41 + i % 26) for i in range(size))
-                if cl_frames(body, framing) is None:
+                if cl_frames(body, framing, nominal) is None:
                     continue
                 for delivery in CL_DELIVERIES:
                     for pos in ("last", "first"):
@@ -460,7 +468,8 @@ def run_cl(kind, case, trace=None):
     block = cl_block(kind, case)
     body = bytes((0x41 + i % 26) for i in range(case["size"]))
     blocked = case.get("blocked")
-    frames = [R.headers_frame(block)] + cl_frames(body, case["framing"])
+    nominal = [sp for sp in CL_SPELLINGS if sp[0] == case["spelling"]][0][2]
+    frames = [R.headers_frame(block)] + cl_frames(body, case["framing"], nominal)
     if blocked == "headers":
         frames[0] = R.frame(R.HEADERS, blocked_section(block))
         block = block + [DYN_ENTRY]
